@@ -748,6 +748,9 @@ func genOne(g *hx.Gen) {
 			if int(id) < len(gs.slots) {
 				ch = gs.slots[id]
 			}
+			if ch == nil {
+				g.Stat("chan.unknown-id")
+			}
 			switch k := r.Intn(15); k {
 			case 0:
 				d := r.Bytes(r.PickInt(0, 1, 10, 100))
@@ -834,6 +837,10 @@ func genOne(g *hx.Gen) {
 				}
 			case 14: // unknown message number
 				pkt = cat([]byte{byte(r.PickInt(0, 2, 95, 101, 150, 191, 193, 255))}, u32(id), r.Bytes(r.PickInt(0, 4)))
+				if r.Chance(1, 3) { // numbers decode() knows from the transport / auth layers: an error whether or not they parse
+					pkt = cat([]byte{byte(r.PickInt(1, 7, 20, 30, 31, 50, 51, 53, 60, 61, 64, 65, 66))}, u32(id), r.Bytes(r.PickInt(0, 4, 20)))
+					g.Stat("chan.transport-or-auth-number")
+				}
 			}
 		case c < 79: // malformed: truncated / too short / garbage
 			switch r.Intn(3) {
